@@ -140,6 +140,39 @@ def table_fns(which):
     return [top, lam, proc] + cb + [feature]
 
 
+UTIL_CPP = 'src/wlearner/util.cpp'
+UTIL_TYPES = WL_TYPES + [(r'^nano::vector_t$|tensor_t<nano::tensor_vector_storage_t, double, 1>', 'struct nv_t1d'),
+                         (r'ArrayWrapper<Eigen::Map<Eigen::Matrix<double, -1, 1', 'struct nv_row')]
+
+
+def util_fns():
+    scale = Fn('wl_scale', UTIL_CPP, 'scale', flt='nano::wlearner::scale', types=UTIL_TYPES, hooks=[size0_hook(UTIL_CPP)],
+               calls=WL_CALLS + [(r'^min\|const long &\(const long &, const long &\)', 'nv_min_i64({0}, {1})'),
+                                 (r'^operator\*=\|.*ArrayWrapper', 'nv_row_scale({&0}, {1})')],
+               members=[(r'^array\|nano::tensor_t<nano::tensor_vector_storage_t, double, 4>', 'nv_t4_vector'),
+                        (r'^size\|nano::tensor_base_t<double, 1, true>', '{self}->n')])
+    sfw_scale = Fn('sfw_scale', 'src/wlearner/single.cpp', 'scale', flt='single_feature_wlearner_t::scale',
+                   self_struct='struct nv_sfw', types=UTIL_TYPES, calls=[(r'^scale\|void \(nano::tensor4d_t &, const nano::vector_t &\)', 'wl_scale')])
+    UP = r'std::unique_ptr<nano::wlearner_t'
+    mtypes = [(r'^nano::rwlearners_t$|^std::vector<' + UP, 'struct nv_wvec'),
+              (r'__normal_iterator<\s*(const )?' + UP + r'.*> \*,', 'struct nv_wl*'),
+              (r'^nano::rwlearner_t$|^' + UP + r'[^:]*>$|__alloc_traits<.*>::value_type$', 'struct nv_wl'),
+              (UP + r'.*>::pointer$|^nano::wlearner_t$', 'struct nv_wl')]
+    mcalls = [(r'^operator\[\]\|std::vector<' + UP, '{0}.p[{1}]'),
+              (r'^operator->\|', '{&0}'),
+              (r'^operator=\|std::unique_ptr<nano::wlearner_t> &\(std::nullptr_t\)', 'nv_wl_reset({&0})'),
+              (r'^remove_if\|', 'nv_remove_if({0}, {1})'),
+              (r'^ctor\|__gnu_cxx::__normal_iterator<', '{0}')]        # iterator -> const_iterator
+    mmembers = [(r'^size\|std::vector<' + UP, '{self}->n'), (r'^operator bool\|' + UP, '({self}->id != 0)'),
+                (r'^try_merge\|nano::wlearner_t \*', 'nv_try_merge'),
+                (r'^begin\|std::vector<' + UP, '{self}->p'), (r'^end\|std::vector<' + UP, '({self}->p + {self}->n)'),
+                (r'^erase\|std::vector<' + UP, 'nv_wvec_erase({self}, {0}, {1})')]
+    mk = dict(types=mtypes, calls=mcalls, members=mmembers, uf_float=False)
+    merge = Fn('wl_merge', UTIL_CPP, 'merge', flt='nano::wlearner::merge', **mk)
+    merge_pred = Fn('merge_pred', UTIL_CPP, 'merge', flt='nano::wlearner::merge', lambda_index=0, captures=True, **mk)
+    return dict(scale=scale, sfw_scale=sfw_scale, merge=merge, merge_pred=merge_pred)
+
+
 def targs(*want):
     return lambda d: astload.template_args(d) == list(want)
 
@@ -160,6 +193,11 @@ def build(tier):
     TH = 'specs/C10/table.h'
     targets.append(Target('table_do_predict', table_fns('predict'), TH))
     targets.append(Target('table_do_split', table_fns('split'), TH))
+    UH = 'specs/C10/util.h'
+    targets.append(Target('wl_scale', [util_fns()['scale']], UH))
+    u = util_fns()
+    targets.append(Target('wl_merge', [u['merge'], u['merge_pred']], UH))
+    targets.append(Target('sfw_scale', [u['sfw_scale'], u['scale']], UH, replace=['wl_scale'], loops=0))
     return {
         'targets': targets, 'vcs': [],
         'decided': [],
